@@ -525,8 +525,12 @@ func (w *World) Digest() string {
 		for _, h := range HandedIPs(p) {
 			hs = append(hs, fmt.Sprintf("%d/%d/%d/%d", h[0], h[1], h[2], h[3]))
 		}
-		pods = append(pods, fmt.Sprintf("%s/%s:%s|%s|%s|%s", p.Namespace, p.Name, uidNum(p.UID), ph,
-			tilde(p.Spec.NodeName), dashIfEmpty(strings.Join(hs, "+"))))
+		term := ""
+		if p.DeletionTimestamp != nil {
+			term = "|T" // inside its deletion grace period: still there, still live
+		}
+		pods = append(pods, fmt.Sprintf("%s/%s:%s|%s|%s|%s%s", p.Namespace, p.Name, uidNum(p.UID), ph,
+			tilde(p.Spec.NodeName), dashIfEmpty(strings.Join(hs, "+")), term))
 	}
 	sort.Strings(pods)
 	for _, e := range w.Events {
